@@ -67,6 +67,10 @@ def check(spec, ctx):
     before = snapshot((cps, cas, vocab))
     ev = ctx.call(spec, "sound_event_detection", sound_event_detection, cps, cas, vocab)
     ctx.unchanged(spec, "sound_event_detection: clip predictions / clip annotations / tags", before, (cps, cas, vocab))
+    # the inputs are declared as sequences: tuples are sequences too
+    ev_t = ctx.call(spec, "sound_event_detection(tuples)", sound_event_detection, tuple(cps), tuple(cas), tuple(vocab))
+    if ev_t.score != ev.score or len(ev_t.clip_evaluations) != len(ev.clip_evaluations):
+        ctx.fail(f"sound_event_detection on tuples gives score {ev_t.score} over {len(ev_t.clip_evaluations)} clips, on lists {ev.score} over {len(ev.clip_evaluations)}", spec, ev_t.score, ev.score, kind="tuple_inputs")
     ctx.case(spec, nontrivial=nontrivial, labels=labels, out={"clip_evaluations": len(ev.clip_evaluations), "score": ev.score})
 
     got_ids = sorted(str(ce.annotations.clip.uuid) for ce in ev.clip_evaluations)
